@@ -40,3 +40,13 @@ def corpus():
         return json.load(open(p))
     except FileNotFoundError:
         return []
+
+
+def corpus1():
+    """fparser1 statements of vh/corpus1.json (built by tools/mkcorpus1.py)"""
+    import json
+    p = os.path.join(os.path.dirname(os.path.dirname(os.path.abspath(__file__))), "vh", "corpus1.json")
+    try:
+        return json.load(open(p))
+    except FileNotFoundError:
+        return []
